@@ -277,6 +277,12 @@ func (s *Error) UnmarshalXML(d *xml.Decoder, start xml.StartElement) error {
 			if err = d.Skip(); err != nil {
 				return err
 			}
+		default:
+			// An application-specific condition (or anything else we do not
+			// understand): skip it so that the rest of the error is still read.
+			if err = d.Skip(); err != nil {
+				return err
+			}
 		}
 	}
 }
